@@ -110,55 +110,61 @@ Definition valid_digit (base : N) (c : ascii) : bool :=
 Definition base_letter_inv (l : ascii) : option N :=
   if is_char l "x" then Some 16 else if is_char l "o" then Some 8 else if is_char l "b" then Some 2 else None.
 
-Definition lex_number (neg : bool) (s : string) : lexnum :=
-  match s with
-  | String "^" (String l digits) =>
-      match caret_base l with
-      | Some base =>
-          (* <digit>+(?![$_.])\b on a blank-delimited token: every character must be a digit of the base *)
-          match digits with
-          | EmptyString => LexCrit "invalid-number"
-          | _ => if str_forallb (valid_digit base) digits
-                 then match int_digits base digits 0 with
-                      | Some n => LexNum (signed neg n) false false
-                      | None => LexCrit "invalid-number"
-                      end
-                 else LexCrit "invalid-number"
-          end
-      | None => LexNoMatch
-      end
-  | _ =>
-      if negb (is_local_symbol_literal s) then LexNoMatch else
-      let has_dot := match str_last s with Some c => is_char c "." | None => false end in
-      let num := if has_dot then str_drop_last s else s in
-      if str_existsb (fun c => is_char c "$" || is_char c "_" || is_char c ".") num then LexLabel else
-      if str_forallb is_decimal_digit num then
-        match int_digits 10 num 0 with
-        | None => LexLabel        (* unreachable: all characters are decimal digits *)
-        | Some dec =>
-            if has_dot then LexNum (signed neg dec) false false
-            else if str_existsb (fun c => is_char c "8" || is_char c "9") num then
-              (if neg then LexNum (signed neg dec) false true else LexNum (signed neg dec) true false)
-            else match int_digits 8 num 0 with
-                 | Some oct => LexNum (signed neg oct) false false
-                 | None => LexLabel   (* unreachable: no 8 or 9 *)
-                 end
-        end
-      else
-        match num with
-        | String z (String l rest) =>
-            if is_char z "0" && is_alpha l then
-              match base_letter_inv (lower l) with
-              | Some base =>
-                  match py_int base rest with
+(* the Macro-11 forms ^X ^O ^B ^D: [l] is the letter, [digits] what follows up to the next blank *)
+Definition lex_caret (neg : bool) (l : ascii) (digits : string) : lexnum :=
+  match caret_base l with
+  | Some base =>
+      (* <digit>+(?![$_.])\b on a blank-delimited token: every character must be a digit of the base *)
+      match digits with
+      | EmptyString => LexCrit "invalid-number"
+      | _ => if str_forallb (valid_digit base) digits
+             then match int_digits base digits 0 with
                   | Some n => LexNum (signed neg n) false false
-                  | None => LexLabel
+                  | None => LexCrit "invalid-number"
                   end
+             else LexCrit "invalid-number"
+      end
+  | None => LexNoMatch
+  end.
+
+(* everything else: first a local symbol literal, then decided by its characters *)
+Definition lex_plain (neg : bool) (s : string) : lexnum :=
+  if negb (is_local_symbol_literal s) then LexNoMatch else
+  let has_dot := match str_last s with Some c => is_char c "." | None => false end in
+  let num := if has_dot then str_drop_last s else s in
+  if str_existsb (fun c => is_char c "$" || is_char c "_" || is_char c ".") num then LexLabel else
+  if str_forallb is_decimal_digit num then
+    match int_digits 10 num 0 with
+    | None => LexLabel        (* unreachable: all characters are decimal digits *)
+    | Some dec =>
+        if has_dot then LexNum (signed neg dec) false false
+        else if str_existsb (fun c => is_char c "8" || is_char c "9") num then
+          (if neg then LexNum (signed neg dec) false true else LexNum (signed neg dec) true false)
+        else match int_digits 8 num 0 with
+             | Some oct => LexNum (signed neg oct) false false
+             | None => LexLabel   (* unreachable: no 8 or 9 *)
+             end
+    end
+  else
+    match num with
+    | String z (String l rest) =>
+        if is_char z "0" && is_alpha l then
+          match base_letter_inv (lower l) with
+          | Some base =>
+              match py_int base rest with
+              | Some n => LexNum (signed neg n) false false
               | None => LexLabel
               end
-            else LexLabel
-        | _ => LexLabel
-        end
+          | None => LexLabel
+          end
+        else LexLabel
+    | _ => LexLabel
+    end.
+
+Definition lex_number (neg : bool) (s : string) : lexnum :=
+  match s with
+  | String c (String l digits) => if is_char c "^" then lex_caret neg l digits else lex_plain neg s
+  | _ => lex_plain neg s
   end.
 
 (* ---- CharLiteral.resolve ------------------------------------------------------------------- *)
